@@ -416,7 +416,10 @@ def cinit_of(c, name):
         return 'CIOther'
 
     def dv(x):
+        # the user's default literal is pasted as written: it may carry the suffix of the storage type (rustc rejects any other)
         v = _lit_int(x, '')
+        if v is None and isinstance(x, dict) and re.fullmatch(r'u(8|16|32|64|128)', x.get('suffix') or ''):
+            v = _lit_int(x)
         if v is not None:
             return '(DVLit %d)' % v
         if x.get('e') == 'path' and len(x['segs']) == 1 and not x.get('leading_colon'):
